@@ -137,6 +137,11 @@ type Check struct {
 	known           map[string]knownFinding
 	procSeq         int
 	pool            *pool
+
+	// replay mode (./check <ID> --replay <file>): only the recorded operation path is executed
+	replayOps        []Op
+	replayKey        string
+	replayReproduced int
 }
 
 // NewCheck reads VERIF_TIER / VERIF_SEED / VERIF_DIR / VERIF_DEADLINE_S from the environment.
@@ -157,6 +162,21 @@ func NewCheck(id, level, rule string) *Check {
 	c.distinct = map[string]struct{}{}
 	c.outcomes = map[string]struct{}{}
 	c.distinctCap = 4000000
+	if rf := os.Getenv("VERIF_REPLAY"); rf != "" {
+		if ops, err := ReplayFile(rf); err == nil && len(ops) > 0 {
+			c.replayOps = ops
+			if b, err := os.ReadFile(rf); err == nil {
+				var r struct {
+					Key string `json:"key"`
+				}
+				json.Unmarshal(b, &r)
+				c.replayKey = r.Key
+			}
+			fmt.Printf("INFO replaying %s: key=%q path=[%s]\n", rf, c.replayKey, PathString(ops))
+		} else {
+			fmt.Printf("INFO %s does not hold an operation path (its case is a point of the check's exhaustive enumeration): running the whole check\n", rf)
+		}
+	}
 	if s := os.Getenv("VERIF_DEADLINE_S"); s != "" {
 		if n, err := strconv.Atoi(s); err == nil && n > 0 {
 			c.deadline = c.start.Add(time.Duration(n) * time.Second)
@@ -352,9 +372,46 @@ func (c *Check) loadKnown() map[string]knownFinding {
 	return out
 }
 
+// Replaying reports whether the check runs in path-replay mode.
+func (c *Check) Replaying() bool { return c.replayOps != nil }
+
+// tryReplay executes the recorded path on harness h (3 times) and reports whether the recorded
+// finding reproduces there. Harness configurations whose alphabet does not know the path's
+// operations simply do not reproduce it.
+func (c *Check) tryReplay(h *Harness) {
+	for i := 0; i < 3; i++ {
+		at, got, want := c.runPath(h, c.replayOps)
+		if at == 0 {
+			return
+		}
+		p := c.replayOps[:at]
+		key := classify(h, p, got, want)
+		if c.replayKey != "" && key != c.replayKey {
+			return
+		}
+		c.replayReproduced++
+		if i == 2 {
+			fmt.Printf("VIOLATION property=%s replay=%s key=%q reproduced 3/3: step %d of [%s] got=%q want=%q\n", c.ID, os.Getenv("VERIF_REPLAY"), key, at, PathString(c.replayOps), short(got), short(want))
+		}
+	}
+}
+
 // Finish writes evidence/<id>.json, replay files, the result file for the driver, and returns the
 // process exit code (0 ok / only known findings, 1 unlisted violation).
 func (c *Check) Finish() int {
+	if c.Replaying() && !IsChild() {
+		exit := 0
+		if c.replayReproduced >= 3 {
+			exit = 1
+		} else {
+			fmt.Printf("INFO replay: the recorded path does not reproduce a violation on this tree\n")
+		}
+		if rf := os.Getenv("VERIF_RESULT"); rf != "" {
+			rb, _ := json.Marshal(map[string]interface{}{"exit": exit, "lines": []string{}})
+			os.WriteFile(rf, rb, 0o644)
+		}
+		return exit
+	}
 	if IsChild() {
 		os.Exit(0) // a ProcFor worker has nothing to report itself
 	}
